@@ -105,8 +105,20 @@ def variant_ecn(variant):
         if v.startswith("ecn="): return int(v[4:])
     return 0
 
-def spec_exact(r): return r[W] & 0x3fffff == 0
+def spec_exact(r): return r[W] & 0x3fffff == 0                     # "has no wildcards", literally (Lean: Spec.exact; used by C04)
 def spec_rank(prio, r): return 0x10000 if spec_exact(r) else prio
+
+def spec_exact_sig(r):
+    """exact match under the prerequisite rule (Lean: Spec.exactSig): no wildcard on a field whose prerequisite is specified,
+    complete addresses when IPv4/ARP is specified; wildcard bits of ignored fields do not count"""
+    dl_is = lambda t: not wild(r, DL_TYPE) and r[DL_TYPE] == t
+    nw_spec = dl_is(0x0800) or dl_is(0x0806)
+    ip_spec = dl_is(0x0800)
+    tp_spec = dl_is(0x0800) and not wild(r, PROTO) and r[PROTO] in (1, 6, 17)
+    prereq = {TOS: ip_spec, PROTO: nw_spec, TP_SRC: tp_spec, TP_DST: tp_spec}
+    if any(wild(r, f) and prereq.get(f, True) for f in FLAG_FIELDS): return False
+    return not nw_spec or (ign_src(r) == 0 and ign_dst(r) == 0)
+def spec_rank_sig(prio, r): return 0x10000 if spec_exact_sig(r) else prio
 
 # ------------------------------------------------------------------ the check
 class C03(Check):
@@ -114,10 +126,15 @@ class C03(Check):
     prop_module = "PoxModel.Properties.C03"
     lean_targets = ["drv_c03"]
     driver = "drv_c03"
-    theorems = ["Pox.C03.table_sorted", "Pox.C03.exact_outranks", "Pox.C03.add_entry_total", "Pox.C03.lookup_spec", "Pox.C03.miss_iff",
-                "Pox.C03.matches_iff", "Pox.C03.lookup_spec_wire", "Pox.C03.miss_iff_wire", "Pox.C03.extract_ok",
-                "Pox.C03.subsumes_iff", "Pox.C03.subsumes_iff_forall",
-                "Pox.C03.matches_tos_defect", "Pox.C03.matches_prereq_defect", "Pox.C03.extract_arp_defect", "Pox.C03.exact_outranks_defect"]
+    theorems = ["Pox.C03.table_sorted", "Pox.C03.add_entry_total", "Pox.C03.exact_outranks", "Pox.C03.lookup_spec", "Pox.C03.miss_iff",
+                "Pox.C03.extract_ok", "Pox.C03.matches_iff", "Pox.C03.lookup_spec_wire", "Pox.C03.miss_iff_wire", "Pox.C03.flow_from_packet_matches",
+                "Pox.C03.flow_from_packet_hit", "Pox.C03.spec_frags_irrelevant", "Pox.C03.flow_from_packet_exact_iff",
+                "Pox.C03.flow_from_packet_exact", "Pox.C03.history_sorted", "Pox.C03.step_preserves_sorted", "Pox.C03.add_position",
+                "Pox.C03.removal_sublist", "Pox.C03.history_exact_first", "Pox.C03.history_lookup", "Pox.C03.history_lookup_wire",
+                "Pox.C03.history_lookup_wire_repaired", "Pox.C03.matches_iff_v", "Pox.C03.extract_ok_v", "Pox.C03.exact_iff_v",
+                "Pox.C03.subsumes_iff_v", "Pox.C03.flow_from_packet_matches_v", "Pox.C03.subsumes_iff_forall", "Pox.C03.subsumes_iff",
+                "Pox.C03.matches_tos_defect", "Pox.C03.matches_prereq_defect", "Pox.C03.extract_arp_defect", "Pox.C03.flow_from_packet_exact_defect",
+                "Pox.C03.exact_outranks_defect"]
     anchors = ()          # computed in setup() from the source: the bodies of ANCHORED (line numbers move with every fix commit)
     ANCHORED = {"pox/openflow/libopenflow_01.py": {"ofp_match": ["from_packet", "get_nw_dst", "get_nw_src", "_normalize_wildcards", "_unwire_wildcards",
                                                                "_wire_wildcards", "pack", "is_wildcarded", "is_exact", "unpack", "matches_with_wildcards"]},
@@ -157,6 +174,41 @@ class C03(Check):
         self.IPAddr, self.EthAddr = IPAddr, EthAddr
         self._corpus = None
         self.anchors = self.compute_anchors()
+        self.variant = self.detect_variant()
+
+    # which of the proposed repairs (fixes/C03_D26/D37/D38) the tree under test has: read off the source, statement shapes
+    # pattern-checked (an unrecognised shape is an error, not a guess); the correspondence run then validates the model chosen
+    VARIANT_SHAPES = {
+        "arpLow8": ("from_packet", {
+            False: "if p.opcode <= 255:\n    match.nw_proto = p.opcode\n    match.nw_src = p.protosrc\n    match.nw_dst = p.protodst",
+            True: "match.nw_proto = p.opcode & 255\nmatch.nw_src = p.protosrc\nmatch.nw_dst = p.protodst"}),
+        "exactSig": ("is_wildcarded", {
+            False: "return self.wildcards & OFPFW_ALL != 0",
+            True: "return self.wildcards & ~self._unwire_wildcards(0) & OFPFW_ALL != 0"}),
+        "prereqExact": ("_unwire_wildcards", {
+            False: "if self._dl_type == 2048:\n    if self._nw_proto not in (1, 6, 17):",
+            True: "dl_type = None if wildcards & OFPFW_DL_TYPE else self._dl_type\nnw_proto = None if wildcards & OFPFW_NW_PROTO else self._nw_proto\n"
+                  "if dl_type == 2048:\n    if nw_proto not in (1, 6, 17):"})}
+
+    def detect_variant(self):
+        import ast, os
+        tree = ast.parse(open(os.path.join(common.REPO, "pox/openflow/libopenflow_01.py")).read())
+        cls = [n for n in tree.body if isinstance(n, ast.ClassDef) and n.name == "ofp_match"][0]
+        fns = {f.name: f for f in cls.body if isinstance(f, ast.FunctionDef)}
+        out = {}
+        for flag, (fn, shapes) in self.VARIANT_SHAPES.items():
+            body = fns[fn].body
+            if flag == "arpLow8":            # the body of `elif isinstance(p, arp):`
+                node = [n for n in ast.walk(fns[fn]) if isinstance(n, ast.If) and ast.unparse(n.test) == "isinstance(p, arp)"]
+                if len(node) != 1: raise RuntimeError("from_packet: ARP branch not found")
+                text = "\n".join(ast.unparse(x) for x in node[0].body)
+            else:
+                stmts = [x for x in body if not (isinstance(x, ast.Expr) and isinstance(getattr(x, "value", None), ast.Constant))]
+                text = "\n".join(ast.unparse(x) for x in stmts)
+            hits = [k for k, shape in shapes.items() if text.startswith(shape)]
+            if len(hits) != 1: raise RuntimeError("ofp_match.%s has a shape the C03 model does not know:\n%s" % (fn, text[:300]))
+            out[flag] = hits[0]
+        return [out["arpLow8"], out["prereqExact"], out["exactSig"]]
 
     def compute_anchors(self):
         import ast, os
@@ -218,7 +270,7 @@ class C03(Check):
         for name in F[1:]:
             v = getattr(m, name)
             if v is None: out.append(None)
-            elif name in ("dl_src", "dl_dst"): out.append(int.from_bytes(v.toRaw(), "big"))
+            elif name in ("dl_src", "dl_dst"): out.append(int.from_bytes(v if isinstance(v, bytes) else v.toRaw(), "big"))
             elif name in ("nw_src", "nw_dst"): out.append(self.IPAddr(v).toUnsigned())
             else: out.append(int(v))
         return out
@@ -312,6 +364,17 @@ class C03(Check):
                 pm = self.of.ofp_match.from_packet(e, fr["port"], spec_frags=True)
                 codematch.append([1 if te.match.matches_with_wildcards(pm, consider_other_wildcards=False) else 0 for te in ents])
             return {"order": order, "eff": eff, "exact": exact, "lookups": lookups, "rx": rx if sw else None, "phdrs": phs, "wfs": wfs, "codematch": codematch}
+        if k == "selfflow":
+            e = self.parse(case["frame"])
+            ph, wf = self.phdr_of(e)
+            m = self.of.ofp_match.from_packet(e, case["port"], spec_frags=case["sf"])
+            if case.get("rawmac"): m.dl_src = e.src.toRaw(); m.dl_dst = e.dst.toRaw()   # addresses given as raw bytes
+            for i in case.get("blank", ()): setattr(m, F[i], None)            # the controller wildcards some fields again
+            wire = m.pack(flow_mod=True)
+            m2 = self.of.ofp_match(); m2.unpack(wire, 0, flow_mod=True)
+            pm = self.of.ofp_match.from_packet(e, case["swport"], spec_frags=True)
+            return {"phdr": ph, "wf": wf, "m": self.views_of(m), "wire": unpack_rec(wire), "m2w": m2.wildcards,
+                    "hit": 1 if m2.matches_with_wildcards(pm, consider_other_wildcards=False) else 0, "exact": 1 if m2.is_exact else 0}
         if k == "tableops":
             ft = self.FlowTable()
             ents, trace, looks = {}, [], []
@@ -353,6 +416,11 @@ class C03(Check):
 
     # ---------------------------------------------------------------- model side
     def model_request(self, case):
+        r = self._model_request(case)
+        if r is not None: r["v"] = self.variant
+        return r
+
+    def _model_request(self, case):
         k = case["kind"]
         if k == "pairs":
             e = self.parse(case["frame"])
@@ -376,6 +444,9 @@ class C03(Check):
                 ph, _ = self.phdr_of(self.parse(fr["frame"]))
                 frames.append({"phdr": ph, "port": fr["port"]})
             return {"op": "table", "entries": [[p, unpack_rec(bytes.fromhex(w))] for p, w in case["entries"]], "frames": frames}
+        if k == "selfflow":
+            return {"op": "selfflow", "phdr": self.phdr_of(self.parse(case["frame"]))[0], "port": case["port"], "swport": case["swport"], "sf": bool(case["sf"]),
+                    "blank": list(case.get("blank", ()))}
         if k == "tableops":
             ops = []
             for op in case["ops"]:
@@ -398,11 +469,13 @@ class C03(Check):
             recs = [unpack_rec(bytes.fromhex(w)) for _, w in case["entries"]]
             spec = [[1 if spec_match(r, spec_headers(ph, fr["port"])) else 0 for r in recs] for ph, fr in zip(obs["phdrs"], case["frames"])]
             v = {"order": obs["order"], "eff": obs["eff"], "exact": obs["exact"], "lookups": obs["lookups"], "spec": spec,
-                 "rank": [spec_rank(p, r) for (p, _), r in zip(case["entries"], recs)]}
+                 "rank": [spec_rank_sig(p, r) for (p, _), r in zip(case["entries"], recs)]}
             if obs["rx"] is not None: v["rx"] = obs["rx"]
             return v
         if k == "tableops":
             return {"trace": obs["trace"]}
+        if k == "selfflow":
+            return {kk: obs[kk] for kk in ("m", "wire", "m2w", "hit", "exact")} | {"spec": 1 if spec_match(obs["wire"], spec_headers(obs["phdr"], case["swport"])) else 0}
 
     def _wire(self, case):
         return all("w" in s for s in case["matches"])
@@ -421,6 +494,8 @@ class C03(Check):
             return v
         if k == "tableops":
             return {"trace": resp["trace"]}
+        if k == "selfflow":
+            return {kk: resp[kk] for kk in ("m", "wire", "m2w", "hit", "exact", "spec")}
 
     # ---------------------------------------------------------------- the property, on the real code's observables
     def _classify(self, r, h, got, ph):
@@ -479,6 +554,13 @@ class C03(Check):
                 v = self._lookup_verdict(flows, got, ph, fr["port"], lambda i: obs["codematch"][fi][i], "frame %d" % fi)
                 if v: return v
             return None
+        if k == "selfflow":
+            if obs["wf"] < 2: return None
+            h = spec_headers(obs["phdr"], case["swport"])
+            want = spec_match(obs["wire"], h)
+            if bool(obs["hit"]) != want:
+                return "match:0 code=%d standard=%d why=%s" % (obs["hit"], int(want), self._classify(obs["wire"], h, bool(obs["hit"]), obs["phdr"]))
+            return None
         if k == "tableops":
             # the property on a history: each lookup answers with the best matching flow among those the table holds at that moment
             flows = {op[1]: (op[2], unpack_rec(bytes.fromhex(op[3]))) for op in case["ops"] if op[0] == "add"}
@@ -498,7 +580,7 @@ class C03(Check):
         """flows: id -> (priority, transmitted match) of the entries in the table; got: id the code returned or None"""
         h = spec_headers(ph, port)
         S = [i for i, (p, r) in flows.items() if spec_match(r, h)]
-        rank = lambda i: spec_rank(*flows[i])
+        rank = lambda i: spec_rank_sig(*flows[i])
         if got is None:
             if S:
                 i = S[0]
@@ -510,7 +592,7 @@ class C03(Check):
         if rank(best) > rank(got):
             if codematch(best):
                 rb = flows[best][1]
-                why = ("priority-order" if not spec_exact(rb) else
+                why = ("priority-order" if not spec_exact_sig(rb) else
                        "exact-outranked" if (rb[DL_TYPE] == 0x0800 and rb[PROTO] in (1, 6, 17)) else "exact-non-l4-outranked")
             else:
                 why = self._classify(rb := flows[best][1], h, False, ph)
@@ -533,6 +615,7 @@ class C03(Check):
 
     def nontrivial(self, case, obs):
         k = case["kind"]
+        if k == "selfflow": return obs["phdr"]["l3"] is not None or obs["phdr"]["vlan"] is not None
         if k == "pairs": return len({r[1] for r in obs["res"]}) > 1 or obs["phdr"]["l3"] is not None
         if k == "subsume": return len({r[0] for r in obs["res"]}) > 1
         return any(x is not None for x in obs["lookups"])
@@ -572,7 +655,7 @@ class C03(Check):
         """returns hex of a frame.  clean=True: no ECN bits, ARP opcode <= 255 (the inputs of open findings are generated separately)"""
         P, IP, Eth = self.pkt, self.IPAddr, self.EthAddr
         kind = kind or rng.choice(["tcp", "udp", "icmp", "ipother", "arp", "vlan_ip", "vlan_arp", "llc", "snap_ip", "snap_other", "snap_oui",
-                                   "other", "frag_first", "frag_later", "ipopts", "trunc_l3", "trunc_l4", "qinq", "snap_vlan"])
+                                   "other", "frag_first", "frag_later", "ipopts", "trunc_l3", "trunc_l4", "qinq", "snap_vlan", "ipv6"])
         mac = lambda: Eth(bytes([rng.choice([0, 2, 0x12]), 0, 0, 0, rng.randint(0, 2), rng.randint(1, 4)]))
         ipa = lambda: IP("%d.%d.%d.%d" % (rng.choice([10, 10, 192, 172]), rng.choice([0, 1, 9, 168]), rng.choice([0, 1, 9, 255]), rng.randint(1, 4)))
         tosv = lambda: rng.choice([0, 0, 0x10, 0xb8, 0x20]) | (0 if clean else rng.choice([1, 2, 3]))
@@ -611,6 +694,7 @@ class C03(Check):
         elif kind == "snap_vlan": b = raw8023(bytes([0xaa, 0xaa, 3, 0, 0, 0, 0x81, 0]), tobytes(vl(0x0800, ip())))
         elif kind == "snap_other": b = raw8023(bytes([0xaa, 0xaa, 3, 0, 0, 0]) + struct.pack("!H", rng.choice([0x0806, 0x88b5, 0x1234, 0x0801])), tobytes(arpp()))
         elif kind == "snap_oui": b = raw8023(bytes([0xaa, 0xaa, 3, 0, 0, 0x0c, 0x20, 0]), b"cdp-ish payload")
+        elif kind == "ipv6": b = eth(0x86dd, struct.pack("!IHBB", 6 << 28, 0, 59, 64) + bytes(15) + b"\1" + bytes(15) + b"\2")
         elif kind == "other": b = eth(rng.choice([0x88b5, 0x8847, 0x0801, 0x0600, 0xffff, 0x9000]), bytes(rng.randint(0, 255) for _ in range(rng.randint(0, 30))))
         elif kind == "frag_first": b = eth(0x0800, ip(rng.choice([6, 17, 1]), flags=P.ipv4.MF_FLAG))
         elif kind == "frag_later": b = eth(0x0800, ip(rng.choice([6, 17, 1]), frag=rng.choice([1, 185, 8191]), flags=rng.choice([0, P.ipv4.MF_FLAG])))
@@ -624,7 +708,7 @@ class C03(Check):
         else: raise ValueError(kind)
         return b.hex()
 
-    FIXED = ["tcp", "arp", "vlan_ip", "icmp", "llc", "snap_ip", "frag_later"]
+    FIXED = ["tcp", "arp", "vlan_ip", "icmp", "llc", "snap_ip", "frag_later", "ipv6", "ipother"]
 
     def fixed_frames(self):
         import random
@@ -722,6 +806,15 @@ class C03(Check):
         cases += self.table_witnesses()
         for i in range(8):
             cases.append(self.tableops_case(rng, frames, nops=[4, 10, 25, 60][i % 4]))
+        for fr in frames:
+            for sf in (True, False):
+                for port in (2, None):
+                    ph = self.headers_of(fr, 2)[0]
+                    c = {"kind": "selfflow", "frame": fr, "port": port, "swport": 2, "sf": sf}
+                    if port is None and sf: c["blank"] = [2, 3, 8, 11]; c["rawmac"] = False
+                    if port == 2 and not sf: c["rawmac"] = True
+                    if not sf and ph["l3"] is not None and ph["l3"][0] == "ip" and ph["l3"][5]: c["corr_only"] = True
+                    cases.append(c)
         self._corpus = cases
         return cases
 
@@ -789,9 +882,21 @@ class C03(Check):
                 ph2, _, h2 = self.headers_of(rng.choice(fixed), port)
                 recs += [self.rand_rec(rng, h2, ph2) for _ in range(16)]
             for c in self.batches(fr, port, recs, ph): yield c
+            # the flow a controller would install for this very packet (from_packet -> pack -> unpack -> lookup test)
+            sf = rng.random() < 0.5
+            c = {"kind": "selfflow", "frame": fr, "port": rng.choice([port, port, None]), "swport": port, "sf": sf}
+            if rng.random() < 0.4: c["blank"] = sorted(rng.sample(range(1, 13), rng.choice([1, 2, 4, 8])))
+            if rng.random() < 0.1: c["rawmac"] = True
+            if self.trigger([0] * 13, ph) is not None or (not sf and ph["l3"] is not None and ph["l3"][0] == "ip" and ph["l3"][5]):
+                c["corr_only"] = True          # open-finding frames; a flow built with spec_frags=False from a fragment is the controller's business
+            yield c
         pool = fixed + [self.frame(rng) for _ in range(30)]
         for i in range(ntab):
             yield self.table_case(rng, pool, n=rng.choice([0, 1, 2, 3, 8, 20, 40, rng.randint(1, 40)]), via_switch=(i % 4 == 0))
+            if i % 5 == 0:         # input class of D26: exact-match flows that are not IPv4 TCP/UDP/ICMP, wildcard bits on ignored fields
+                c = self.table_case(rng, pool, n=rng.choice([2, 5, 12, 30]), exact_class=True)
+                yield c
+                yield dict(c, corr_only=True)
         for i in range(150 if tier == "quick" else 2500):
             yield self.tableops_case(rng, pool, nops=rng.choice([3, 8, 20, 60, 90]))
         for c in self.local_and_subsume(rng, pool, 40 if tier == "quick" else 1200): yield c
@@ -799,7 +904,7 @@ class C03(Check):
     def search_cases(self, rng, tier):
         return self.generate(rng, "quick")
 
-    def table_case(self, rng, pool, n, via_switch=False):
+    def table_case(self, rng, pool, n, via_switch=False, exact_class=False):
         """n flow entries aimed at 2-5 frames of the pool (so that several entries match the same frame), clustered priorities,
         a mix of exact (wildcards = 0) and wildcarded entries; inputs of the open findings D26/D36/D38 are kept out (see table_witnesses)"""
         frames = []
@@ -816,16 +921,21 @@ class C03(Check):
             mode = rng.random()
             if mode < 0.2:                      # exact entry for this frame: only where the code's notion of exact agrees (TCP/UDP/ICMP over IP)
                 r = self.near_rec(rng, h, ph, [], 0, 0, perturb=[rng.choice(FLAG_FIELDS)] if rng.random() < 0.2 else ())
-                if not (r[DL_TYPE] == 0x0800 and r[PROTO] in (1, 6, 17)): continue
+                if exact_class and rng.random() < 0.5:       # wildcard bits only on fields the prerequisite rule ignores
+                    r[W] = mkwild([f for f in (TOS, PROTO, TP_SRC, TP_DST) if rng.random() < 0.5 and not
+                                   {TOS: r[DL_TYPE] == 0x0800, PROTO: r[DL_TYPE] in (0x0800, 0x0806)}.get(f, r[DL_TYPE] == 0x0800 and r[PROTO] in (1, 6, 17))],
+                                  0 if r[DL_TYPE] in (0x0800, 0x0806) else rng.choice([0, 8, 32, 63]), 0 if r[DL_TYPE] in (0x0800, 0x0806) else rng.choice([0, 32]))
+                if not exact_class and not (r[DL_TYPE] == 0x0800 and r[PROTO] in (1, 6, 17)): continue
             else:
                 r = self.rand_rec(rng, h, ph)
-                if spec_exact(r) and not (r[DL_TYPE] == 0x0800 and r[PROTO] in (1, 6, 17)): continue
+                if not exact_class and spec_exact_sig(r) and not (r[DL_TYPE] == 0x0800 and r[PROTO] in (1, 6, 17) and spec_exact(r)): continue
             if self.trigger(r, ph) is not None: continue
             if any(self.trigger(r, ph2) is not None for _, _, ph2, _ in frames): continue
             p = rng.choice(prios) if rng.random() < 0.8 else rng.randint(0, 0xffff)
             ents.append([p, pack_rec(r).hex()])
         c = {"kind": "table", "entries": ents, "frames": [{"frame": fr, "port": port} for fr, port, _, _ in frames]}
         if via_switch: c["via_switch"] = True
+        if exact_class: c["class"] = "exact"
         return c
 
     def tableops_case(self, rng, pool, nops):
@@ -849,7 +959,7 @@ class C03(Check):
                     if not (r[DL_TYPE] == 0x0800 and r[PROTO] in (1, 6, 17)): continue
                 else:
                     r = self.rand_rec(rng, h, ph)
-                    if spec_exact(r) and not (r[DL_TYPE] == 0x0800 and r[PROTO] in (1, 6, 17)): continue
+                    if spec_exact_sig(r) and not (r[DL_TYPE] == 0x0800 and r[PROTO] in (1, 6, 17) and spec_exact(r)): continue
                 if any(self.trigger(r, ph2) is not None for _, _, ph2, _ in frames): continue
                 return r
         ops, now, nid, installed, everadded = [], 1000, 0, {}, []
